@@ -118,6 +118,31 @@ func encodeOne(v any) string {
 	}
 	// 数值按 SQL 语义归一：1(int)/1.0(float64)/1(uint) 视作相等。否则 JSON 流解码
 	// 出的 float64 键与类型化维度表的 int 键永不匹配，INNER JOIN 静默丢行。
+	// Integers are encoded by their exact decimal text: going through float64 is not
+	// injective above 2^53 (int64(2^53+1) would match the table key 2^53). An integral
+	// float in the exactly representable range produces the same text, so 1 == 1.0.
+	switch x := v.(type) {
+	case int:
+		return "n:" + strconv.FormatInt(int64(x), 10)
+	case int8:
+		return "n:" + strconv.FormatInt(int64(x), 10)
+	case int16:
+		return "n:" + strconv.FormatInt(int64(x), 10)
+	case int32:
+		return "n:" + strconv.FormatInt(int64(x), 10)
+	case int64:
+		return "n:" + strconv.FormatInt(x, 10)
+	case uint:
+		return "n:" + strconv.FormatUint(uint64(x), 10)
+	case uint8:
+		return "n:" + strconv.FormatUint(uint64(x), 10)
+	case uint16:
+		return "n:" + strconv.FormatUint(uint64(x), 10)
+	case uint32:
+		return "n:" + strconv.FormatUint(uint64(x), 10)
+	case uint64:
+		return "n:" + strconv.FormatUint(x, 10)
+	}
 	if f, ok := numericKeyFloat(v); ok {
 		if f == 0 {
 			f = 0 // 归一 -0.0 → 0
